@@ -7,7 +7,7 @@ from . import common
 
 PROPS = [f'C{i:02d}' for i in range(1, 21)]
 BASELINE_OFF = ('cd /repo && env -u AUTOBEAN_REFACTOR_VERIF /venv/bin/python -m pytest -ra -q -p no:cacheprovider --timeout=900 '
-                '--continue-on-collection-errors --junitxml=/tmp/autobean-baseline-off.junit.xml')
+                '--continue-on-collection-errors --junitxml=/verif/out/baseline-off.junit.xml')
 
 
 def main() -> None:
